@@ -555,7 +555,7 @@ ADAPTORS = {
     "std::task::Poll::<T>::map": {"f": 1, "params": {2: [(0, ())]}, "result": [("ret", (), ())],
                                   "fnitem_result": [(0, (), ())]},
     "std::result::Result::<T, E>::map": {"f": 1, "params": {2: [(0, ())]}, "result": [("ret", (), ()), (0, (), ())],
-                                         "fnitem_result": [(0, (), ())]},
+                                         "fnitem_result": [(0, (), ())], "ok_ret_err_arg": 0},
     "std::result::Result::<T, E>::map_err": {"f": 1, "params": {2: [(0, ())]}, "result": [("ret", (), ()), (0, (), ())],
                                              "fnitem_result": [(0, (), ())]},
     "std::result::Result::<T, E>::and_then": {"f": 1, "params": {2: [(0, ())]}, "result": [("ret", (), ()), (0, (), ())]},
@@ -631,6 +631,8 @@ def norm_path(path):
 
 
 class Flow:
+    context_sensitive_calls = True
+    merge_call_targets = frozenset()
     alloc_wrappers = {}
 
     def __init__(self, fb):
@@ -835,6 +837,12 @@ class Flow:
         pc = is_param_call(t)
         if pc:
             internal = self.internal_callback(body, pc)
+            if internal is not None and len(internal) > 1 and "@" in mode and mode.split("@", 1)[1] == body.root:
+                # summary of the helper: the result of "whatever closure this call site passes" (instantiated per call site)
+                sigr = self.fb.fns.get(body.root) or {}
+                pos = [i for i, x in enumerate(sigr.get("inputs", [])) if x["s"].lstrip("&").replace("mut ", "").strip() == pc]
+                if len(pos) == 1:
+                    return {Src(("paramcall", body.root, pos[0] + 1, tuple(rest)))}
             if internal is not None:
                 # a private higher-order helper calling the crate's own closure: the result is that closure's result
                 out = set()
@@ -860,7 +868,13 @@ class Flow:
             target = path
         if target is not None:
             cb = self.fb.bodies[target]
-            out = self._q(cb, 0, rest, mode)
+            if mode == "prov" and cb.kind == "fn" and self.context_sensitive_calls and target not in self.merge_call_targets:
+                # instantiate the callee's summary at THIS call site: what its result derives from, with the callee's own
+                # parameters replaced by the arguments given here (a small helper called with the ready-sender at one site
+                # and the done-sender at another must not merge the two)
+                out = self.instantiate_summary(body, t, target, self._q(cb, 0, rest, "prov@" + target), mode)
+            else:
+                out = self._q(cb, 0, rest, mode)
             if target in self.alloc_wrappers:
                 # a private constructor that only wraps one allocation (e.g. `FnIdChannel::new(cap)` around `mpsc::channel(cap)`):
                 # each of its call sites is an allocation site of its own
@@ -917,6 +931,25 @@ class Flow:
                 out |= self._q_operand(body, a, (), mode)
         return out
 
+    def instantiate_summary(self, body, t, target, summ, mode="prov"):
+        """value sources computed inside `target` in boundary mode (`prov@target`), re-expressed at the call `t` in `body`:
+        the callee's parameters become this call's arguments, a call of its callback parameter becomes the result of the
+        closure passed here"""
+        args = t["args"]
+        out = set()
+        for x in summ:
+            if x.kind == "param" and x[1] == target and isinstance(x[2], int) and 1 <= x[2] <= len(args):
+                out |= self._q_operand(body, args[x[2] - 1], tuple(x[3]), mode)
+            elif x.kind == "paramcall" and x[1] == target and 1 <= x[2] <= len(args):
+                cbx = self._closure_body_of_operand(body, args[x[2] - 1])
+                if cbx is not None:
+                    out |= self._q(cbx, 0, tuple(x[3]), mode)
+                else:
+                    out.add(Src(("unknown", "callback passed to %s" % target)))
+            else:
+                out.add(x)
+        return out
+
     def _closure_body_of_operand(self, body, op):
         """Closure body passed as operand (by its type); a named crate-local
         function passed as a value counts as a closure without environment."""
@@ -963,6 +996,18 @@ class Flow:
                     return out
         if f is not None and cb is None and "fnitem_result" in model:
             rules = model["fnitem_result"]
+        if cb is not None and "ok_ret_err_arg" in model:
+            # Result::map(r, f): the Ok payload is what `f` returns, the Err payload is r's; a payload path never reaches into
+            # the other side
+            ea = model["ok_ret_err_arg"]
+            if rest and rest[0] == "E":
+                return set(self._q_operand(body, args[ea], rest, mode))
+            out = set(self._q(cb, 0, tuple(rest), mode))
+            if not rest:
+                out |= self._q_operand(body, args[ea], ("E",), mode)
+            if mode == "taint":
+                out |= self._q_operand(body, args[ea], tuple(rest), mode)
+            return out
         matched = False
         for src, rprefix, aprefix in rules:
             rprefix = tuple(rprefix)
